@@ -188,7 +188,8 @@ def _get_addrinfo_list(hostname, port: int, is_secure: bool, proxy) -> tuple:
                 phost, pport, 0, socket.SOCK_STREAM, socket.SOL_TCP
             )
             return addrinfo_list, True, pauth
-    except socket.gaierror as e:
+    except (socket.gaierror, UnicodeError) as e:
+        # UnicodeError: the IDNA step inside getaddrinfo refuses the host name
         raise WebSocketAddressException(e)
 
 
